@@ -1,5 +1,114 @@
-import Banyan.Model.Util
-open Banyan
+import Banyan.Model.C10
+open Banyan Banyan.C10
 
-/- stub: model driver for C10 not built yet -/
-def main : IO Unit := runDriver fun _ => "bad-op"
+/-! Line-protocol driver of the C10 model; same lines and outputs as hooks/banyand/internal/verifdrv/c10. -/
+
+def parseFn : String → Option Fn
+  | "sum" => some .sum
+  | "count" => some .count
+  | "min" => some .min
+  | "max" => some .max
+  | "mean" => some .mean
+  | _ => none
+
+def parseI64 (s : String) : Option I64 := s.toInt?.map (BitVec.ofInt 64)
+
+def parseInts (s : String) : Option (List I64) :=
+  if s == "-" || s == "" then some [] else (s.splitOn ",").mapM parseI64
+
+def showI (v : I64) : String := toString v.toInt
+
+def dash (s : String) : String := if s.isEmpty then "-" else s
+
+def b01 (b : Bool) : String := if b then "1" else "0"
+
+def doFn (fnS form parts : String) : String :=
+  match parseFn fnS, (parts.splitOn "|").mapM parseInts with
+  | some fn, some ps =>
+    let whole := (mapAll fn ps.flatten).val
+    let partials := ps.map fun p => (mapAll fn p).partial
+    let sent : List Partial := ps.filterMap fun p =>
+      if p.isEmpty && form == "s" then none
+      else if p.isEmpty && form == "z" then some (fieldValuesToPartial fn [])
+      else some (fieldValuesToPartial fn (partialToFieldValues fn (mapAll fn p).partial))
+    let red := (reduceAll fn sent).val
+    s!"whole={showI whole} parts={";".intercalate (partials.map fun p => s!"{showI p.value}:{showI p.count}")} red={showI red}"
+  | _, _ => "bad-op"
+
+def doTop (nS dir vals : String) : String :=
+  match nS.toNat?, parseInts vals with
+  | some n, some vs =>
+    let q : TopQ Unit := TopQ.new n (dir == "a")
+    match q.insertAll (vs.map fun v => (v.toInt, ())) with
+    | none => "PANIC"
+    | some (q', acc) =>
+      s!"acc={dash (String.join (acc.map b01))} out={dash (",".intercalate (q'.elements.map fun e => toString e.1))}"
+  | _, _ => "bad-op"
+
+def untag (s : String) : String := if s == "_" then "" else s
+def entag (s : String) : String := if s.isEmpty then "_" else s
+
+def parseMask (s : String) : Option (List Bool) :=
+  if s.length == 3 then some (s.toList.map (· == '1')) else none
+
+def parseTop (s : String) : Option (Option (Nat × Bool)) :=
+  if s == "0" then some none
+  else match s.splitOn ":" with
+    | [n, d] => n.toNat?.map fun k => some (k, d == "a")
+    | _ => none
+
+def parseNodes (s : String) : Option (List (List Nat)) :=
+  (s.splitOn "/").mapM fun n =>
+    if n == "-" then some [] else (n.splitOn "+").mapM String.toNat?
+
+def parseRow (s : String) : Option Row :=
+  match s.splitOn "." with
+  | [sh, a, b, c, v] =>
+    match sh.toNat?, parseI64 v with
+    | some shard, some val => some ⟨shard, [untag a, untag b, untag c], val⟩
+    | _, _ => none
+  | _ => none
+
+def parseRows (s : String) : Option (List Row) :=
+  if s == "-" then some [] else (s.splitOn ",").mapM parseRow
+
+def keyOf (mask : List Bool) (tags : List String) : String :=
+  match selectTags mask tags with
+  | [] => "*"
+  | ks => ".".intercalate (ks.map entag)
+
+def showFinal (mask : List Bool) (rs : List Resp) : String :=
+  dash (";".intercalate (rs.map fun r =>
+    keyOf mask r.tags ++ "=" ++ (match r.fields with | [v] => showI v | _ => "?")))
+
+def showPartials (mask : List Bool) (nodes : List (List Resp)) : String :=
+  dash ("/".intercalate (nodes.map fun rs =>
+    dash (";".intercalate (rs.map fun r =>
+      s!"{r.shard}~{keyOf mask r.tags}~{":".intercalate (r.fields.map showI)}"))))
+
+def doScenario (path : Path) (ws : List String) : String :=
+  match ws with
+  | fnS :: maskS :: topS :: nodesS :: rest =>
+    let rowsS := rest.headD "-"
+    match parseFn fnS, parseMask maskS, parseTop topS, parseNodes nodesS, parseRows rowsS with
+    | some fn, some mask, some top, some nodes, some rows =>
+      let sc : Scenario := ⟨fn, mask, top, nodes, rows⟩
+      match sc.local path .exact, sc.distributed path .exact with
+      | some l, some d =>
+        s!"L={showFinal mask l} D={showFinal mask d} R={showPartials mask (sc.answers path .exact)}"
+      | _, _ => "PANIC"
+    | _, _, _, _, _ => "bad-op"
+  | _ => "bad-op"
+
+def handle (line : String) : String :=
+  match words line with
+  | ["fn", f, parts] => doFn f "p" parts
+  | ["fns", f, parts] => doFn f "s" parts
+  | ["fnz", f, parts] => doFn f "z" parts
+  | "ff" :: _ => "-"                      -- float accumulators are not modelled (oracle only)
+  | ["top", n, dir, vals] => doTop n dir vals
+  | "row" :: rest => doScenario .row rest
+  | "vec" :: rest => doScenario .vec rest
+  | _ => "bad-op"
+
+def main : IO Unit := runDriver handle
